@@ -457,10 +457,12 @@ theorem id_second {L : Nat} {e : X} (hwf : WFX L e) : ∀ x r, e.flat = ("ID", x
   | id L y => intro x r h; simp [X.flat] at h; exact .inl h.2
   | const L k v t hc => intro x r h; simp [X.flat] at h; exact .inl h.2
   | paren L e _ _ => intro x r h; simp [X.flat] at h
-  | pre L k v e _ hk _ _ =>
+  | pre L k v e _ hk _ _ _ =>
     intro x r h; simp only [X.flat, List.cons.injEq, Prod.mk.injEq] at h
     rw [h.1.1] at hk; exact absurd hk (by decide)
-  | szof L e _ _ _ => intro x r h; simp [X.flat] at h
+  | szof L e _ _ _ _ => intro x r h; simp [X.flat] at h
+  | cast L tn e _ _ _ _ => intro x r h; simp [X.flat] at h
+  | szofT L tn _ _ => intro x r h; simp [X.flat] at h
   | post L k v e _ hk hw ih =>
     exact id_second_app e.flat _ (k, v) [] rfl (mem_not_colon hk (by decide)) ih (flat_ne_nil hw)
   | index L e i _ hw _ ih _ =>
